@@ -1,5 +1,7 @@
 """C14: fixed-point operations equal exact scaled-integer arithmetic."""
 import itertools
+import json
+import os
 import math
 from fractions import Fraction
 
@@ -392,7 +394,60 @@ def compose_shard(seed, n_examples):
     return stats
 
 
+NOBACKEND_CHILD = '''import sys, json
+import pysnark.runtime as rt
+rt.autoprove = False
+if rt.backend_name != "nobackend": raise SystemExit("nobackend not selected: %r" % rt.backend_name)
+import pysnark.fixedpoint as fx
+from pysnark.fixedpoint import PrivValFxp, PubValFxp
+case = json.loads(sys.stdin.read())
+rt.bitlength = 40
+fx.resolution = case["r"]
+out = []
+for a, b in case["pairs"]:
+    x, y = PrivValFxp(a), PubValFxp(b)
+    out.append([x.val(), y.val(), (x + y).val(), (x - y).val(), (x * y).val(), (-x).val(), (x * 3).val(), (y + 2.5).val(),
+                rt.snark(lambda u: u * 2)(a), rt.snark(lambda u, v: [u + v, u - 1])(a, b)])
+print("RESULT " + json.dumps(out))
+'''
+
+
+def nobackend_case(case):
+    """The library's own `nobackend` (PYSNARK_BACKEND=nobackend: plain computing without a proof system; its modulus is a
+    placeholder): values are read back as representation / 2^r there as well. Returns message or None."""
+    import subprocess, sys, math
+    envv = {k: v for k, v in os.environ.items() if k not in ("PYSNARK_BACKEND", "PYTHONPATH")}
+    envv.update({"PYSNARK_BACKEND": "nobackend", "PYTHONPATH": os.environ.get("VERIF_REPO", "/repo") + core.COVPATH, "PYTHONHASHSEED": core.hashseed_for(case)})
+    r_ = subprocess.run([sys.executable, "-c", NOBACKEND_CHILD], input=json.dumps(case), capture_output=True, text=True, env=envv, timeout=120, cwd="/")
+    res = [json.loads(l[7:]) for l in r_.stdout.splitlines() if l.startswith("RESULT ")]
+    if not res:
+        return "computing on the nobackend backend failed: %s" % (r_.stderr.strip().splitlines() or ["?"])[-1]
+    S = 1 << case["r"]
+    for (a, b), got in zip(case["pairs"], res[0]):
+        A, B = Fraction(a), Fraction(b)
+        fl = lambda q: Fraction(math.floor(q * S), S)
+        want = [A, B, A + B, A - B, fl(A * B), -A, A * 3, B + Fraction(5, 2), A * 2, [A + B, A - 1]]
+        names = ["x", "y", "x + y", "x - y", "x * y", "-x", "x * 3", "y + 2.5", "snark(u*2)(x)", "snark([u+v, u-1])(x, y)"]
+        for nm, g, w in zip(names, got, want):
+            if (g if isinstance(g, list) else [g]) != [float(v) for v in (w if isinstance(w, list) else [w])]:
+                return "nobackend, resolution %d, x = %r, y = %r: %s read back as %r, representation / 2^r is %r" % (case["r"], a, b, nm, g, [float(v) for v in w] if isinstance(w, list) else float(w))
+    return None
+
+
+def nobackend_shard(cases):
+    stats = core.Stats()
+    for case in cases:
+        msg = nobackend_case(case)
+        stats.case(case, True, ("nobackend-read-back",), sample_cap=2)
+        if msg:
+            stats.violations.append({"case": case, "msg": msg, "key": "nobackend"})
+            break
+    return stats
+
+
 def replay(case):
+    if case.get("part") == "nobackend":
+        return nobackend_case(case)
     if case.get("part") == "compose":
         case = dict(case, leaves=[tuple(x) for x in case["leaves"]], nodes=[tuple(x) for x in case["nodes"]])
         return compose_case(case)[0]
@@ -421,6 +476,8 @@ def run(ctx):
     total.merge_json(core.run_shards("harness.checks.c14", "random_shard", [dict(seed=ctx.seed * 1000 + i, n_examples=n) for i in range(16)]).to_json())
     nc = 300 if ctx.tier == "quick" else 6000
     total.merge_json(core.run_shards("harness.checks.c14", "compose_shard", [dict(seed=ctx.seed * 1000 + 500 + i, n_examples=nc) for i in range(16)]).to_json())
+    nb = [{"part": "nobackend", "r": r_, "pairs": [[a / 4.0, b_ / 8.0] for a, b_ in ((2, 4), (80, -964), (-482, 801), (4000, 12), (-12002, 24001), (100001, -3), (37, 100000))]} for r_ in (3, 4, 8, 12)]
+    total.merge_json(core.run_shards("harness.checks.c14", "nobackend_shard", [dict(cases=[c]) for c in nb]).to_json())
     total.extra["grids_enumerated_completely"] = [list(g) for g in grids]
     ctx.stats = total
     replay_known(ctx, replay)
